@@ -26,6 +26,10 @@ mod codec;
 mod config;
 mod io;
 
+#[cfg(libp2p_verif)]
+#[doc(hidden)]
+pub use codec::verif_tpt;
+
 use std::{
     cmp, iter,
     pin::Pin,
@@ -226,3 +230,7 @@ where
         self.io.lock().drop_stream(self.id);
     }
 }
+
+#[cfg(libp2p_verif)]
+#[doc(hidden)]
+pub mod verif_mux;
